@@ -24,7 +24,10 @@ EDGE_CAP = 4 * PAGE  # the boundary / full-file rounds grow the bitmap themselve
 #   leak    : a bitmap growth that fails in _fsm_init_lw (file size limit) leaves the blocks carved out for the new
 #             bitmap allocated for good                                                      fixes/fsm-resize-leak.diff
 # (assert : fixes/fsm-setbit-assert.diff is committed - a failing range assert is a violation, always.)
-KNOWN = {"realloc": 4, "hint": 5, "leak": 6}
+#   recheck : _fsm_reallocate looks at the old range only BEFORE it allocates the new region: a free "old region" can receive the
+#             relocated bitmap and the final release frees it (strict mode too); strict refusal / failed copy leave the new
+#             region allocated; a negative new length releases everything                  fixes/fsm-realloc-recheck.diff
+KNOWN = {"realloc": 4, "hint": 5, "leak": 6, "recheck": 7}
 OPEN = set(x for x in os.environ.get("VERIF_FSM_OPEN", "").replace("all", ",".join(KNOWN)).split(",") if x)
 VARIANT = None   # set per run (variant_of_source)
 
@@ -69,7 +72,9 @@ def variant_of_source():
     hi = "1" if re.search(r"offset_blk\s*=\s*\(uint32_t\)\s*-1", m.group(0) if m else "") else "0"
     m = re.search(r"static iwrc _fsm_resize_fsm_bitmap_lw\(.*?\n}\n", txt, re.S)
     lk = "1" if re.search(r"\bcarved\b", m.group(0) if m else "") else "0"
-    return lf + st + sy + sh + rg + hi + lk
+    m = re.search(r"static iwrc _fsm_reallocate\(.*?\n}\n", txt, re.S)
+    rk = "1" if re.search(r"nlen\s*<\s*0", m.group(0) if m else "") else "0"
+    return lf + st + sy + sh + rg + hi + lk + rk
 
 
 def roundup(x, v):
@@ -383,6 +388,30 @@ class Oracle:
                 if not self.stop:
                     self.structure(s, line)
                 return len(self.v) - n0
+            if f[-1] in ("unowned", "negative"):
+                # unowned: the old range is a free run (strict mode: any range with a free block): refused - in strict mode with
+                # nothing changed; without strict mode the library cannot know, but its own areas stay intact and nothing is lost.
+                # negative: a new length below zero: refused, nothing changes
+                self.count("realloc of a range the caller does not own" if f[-1] == "unowned" else "realloc to a negative length")
+                strict = self.cfg[1] if self.cfg else False
+                d = self.unchanged(prev, s)
+                if f[-1] == "negative" or strict:
+                    if rc == 0:
+                        self.known("recheck", "C10", "%s: accepted -> %s" % (line, vals))
+                    elif d:
+                        self.known("recheck", "C10", "%s: refused with rc=%d but the state changed: %s" % (line, rc, d))
+                elif rc == 0:
+                    a, l = vals[0], vals[1]
+                    if l > 0:
+                        self.live[a] = l
+                if not self.stop:
+                    n1 = len(self.v)
+                    self.structure(s, line)
+                    if self.v[n1:]:
+                        msg = self.v[n1][1]
+                        del self.v[n1:]
+                        self.known("recheck", "C10", msg)
+                return len(self.v) - n0
             if f[-1] == "invalid":   # generator's annotation: the old range does not lie inside the addressable space
                 self.count("realloc-invalid")
                 if rc == 0:
@@ -416,8 +445,18 @@ class Oracle:
                     self.live[a] = l
                     if pat:
                         self.pat[a] = (pat[0], min(pat[1], l))
-            elif not (rc == E_NOSPACE and (fl & F_NOEXT)):
+            elif not (rc == E_NOSPACE and (fl & F_NOEXT)) and not (self.maxoff and rc == E_MAXOFF):
                 self.bad("C10", "%s: reallocation failed with rc=%d" % (line, rc))
+            if rc == E_MAXOFF and self.maxoff:
+                # the copy could not bring the new region inside the file: the new region must have been given back
+                n1 = len(self.v)
+                self.structure(s, line)
+                lost = [x for x in self.v[n1:] if "nobody owns" in x[1]]
+                if lost:
+                    self.v[n1:] = [x for x in self.v[n1:] if x not in lost]
+                    self.known("recheck", "C11", "%s: failed with rc=%d at the file size limit %d and left the new region allocated: %s" % (
+                        line, rc, self.maxoff, lost[0][1][:300]))
+                return len(self.v) - n0
             self.structure(s, line)
         elif c == "free":
             addr, ln = int(f[1]), int(f[2])
@@ -950,7 +989,7 @@ def gen_script(rng, impl, nops, focus, scripted=None):
         tail = rng.choice([0, 0, 0, 1, bsz - 1])       # stray bytes behind the last whole block of the length
         kind = rng.weighted([("in-past", 6), ("at-end", 3), ("beyond", 2), ("far", 1), ("bitmap", 3), ("header", 2),
                              ("shrink", 3), ("query", 2), ("probe", 3), ("re-header", 2), ("re-bitmap", 3), ("re-empty", 1),
-                             ("negative", 1)])
+                             ("negative", 1), ("re-unowned", 3), ("re-negative", 1)])
         orc.count("edge request: " + kind)
         if kind in ("re-header", "re-bitmap", "re-empty"):
             # reallocate whose OLD range is the header / the allocator's own bitmap (whole, a part, reached from a live
@@ -985,6 +1024,43 @@ def gen_script(rng, impl, nops, focus, scripted=None):
                 # carved out of the old range (copy of overlapping ranges fails in its own way, not modelled)
                 fl2 |= F_NOEXT
             return do("realloc %d %d %d %d meta" % (max(nlb * bsz - rng.choice([0, 0, 1]), 0) if nlb else 0, ob * bsz, on * bsz, fl2))
+        if kind == "re-negative":   # reallocate to a negative length (-1 .. -bsz+1 used to wrap to "zero blocks")
+            if not orc.live:
+                return True
+            a = rng.choice(sorted(orc.live))
+            nl = -rng.choice([1, 1, 2, bsz - 1, bsz, bsz + 1, 1 << 40])
+            return do("realloc %d %d %d %d negative" % (nl, a, orc.live[a], flags() & ~(F_SOLID | F_PAGE)))
+        if kind == "re-unowned":
+            # reallocate to a larger size where the "old region" is free: in strict mode any range inside a free run (or a live
+            # region plus the free block behind it); without strict mode a whole maximal free run (its release is a no-op).
+            # Half of the requests are longer than every free run: the bitmap doubles, and the new bitmap may be put INTO the
+            # range the caller named - the final release of the "old region" then hits the live bitmap.
+            zr = runs_of(s.B)[0]
+            nbm = bl // bsz
+            au = max(1, PAGE // bsz)
+            cand = [r_ for r_ in zr if r_[1] <= 65536]
+            if not cand:
+                return True
+            big = [r_ for r_ in cand if r_[1] >= 2 * nbm + au]
+            o, l = rng.choice(big) if big and rng.chance(2, 3) else rng.choice(cand)
+            if orc.cfg[1] and rng.chance(1, 2):       # strict: a part of the run / a live neighbour reaching into it
+                k2 = rng.range(1, min(l, 4 * nbm))
+                o2 = o + rng.choice([0, 0, l - k2])
+                o, l = o2, k2
+                near = [a for a in orc.live if a + orc.live[a] == o * bsz]
+                if near and rng.chance(1, 3):
+                    o, l = near[0] // bsz, orc.live[near[0]] // bsz + min(l, rng.choice([1, 1, 64]))
+            # (without strict mode only requests that fit: once the bitmap moves, the released old area may merge with the run and
+            # the "release" of what is then a PART of a free run is the double free that mode does not detect)
+            grow = rng.chance(1, 2) and s.M[1] < EDGE_CAP and orc.cfg[1]
+            mx = max([x[1] for x in zr])
+            nlb = (mx + rng.choice([1, 2, 1000])) if grow else l + rng.choice([1, 1, 2, 64])
+            fl2 = (flags() | F_NOOVER) & ~(F_SOLID | F_PAGE | F_SYNCBM)
+            if not grow:
+                fl2 |= F_NOEXT
+            else:
+                fl2 &= ~F_NOEXT
+            return do("realloc %d %d %d %d unowned" % (nlb * bsz - rng.choice([0, 0, 1]), o * bsz, l * bsz, fl2))
         if kind == "negative":   # off_t arguments below zero: (uint64_t) casts make them huge; refused, nothing changes
             a = -rng.choice([1, bsz, 2 * bsz, 1 << 40, 1 << 62, (1 << 63) - bsz, 1 << 63]) // bsz * bsz
             how = rng.below(3)
@@ -1300,7 +1376,7 @@ def gen_script(rng, impl, nops, focus, scripted=None):
         for _ in range(rng.range(3, 8)):
             zr = runs_of(orc.st.B)[0]
             kind = rng.weighted([("hint-big", 6), ("hint-edge", 2), ("len-big", 2), ("len-edge", 1), ("grow-fail", 2),
-                                 ("small", 2), ("free", 2), ("reopen", 1), ("chk", 1)])
+                                 ("small", 2), ("free", 2), ("reopen", 1), ("chk", 1), ("realloc-limit", 3 if orc.live else 0)])
             orc.count("overflow script: " + kind)
             fl = rng.choice([0, 0, F_NOEXT, F_NOOVER | F_NOSTATS, F_NOEXT | F_NOOVER | F_NOSTATS, F_NOSTATS, F_NOOVER])
             ln = rng.weighted(SIZES_BLK) * bsz - rng.choice([0, 0, 1])
@@ -1327,6 +1403,21 @@ def gen_script(rng, impl, nops, focus, scripted=None):
             elif kind == "grow-fail":     # more than the limit can hold
                 hint = 0
                 ln = orc.maxoff + rng.choice([0, bsz, PAGE, 10 * PAGE])
+            elif kind == "realloc-limit":
+                # a region grows by reallocate while every block below the size limit is taken: the new region lies behind the
+                # limit, the copy cannot bring it inside the file, the call fails - and must give the new region back
+                lim = orc.maxoff // bsz
+                for o, l in zr:
+                    if o < lim:
+                        if not do("alloc %d %d %d" % (min(l, lim - o) * bsz, o * bsz, F_NOEXT | F_NOOVER | F_NOSTATS)):
+                            return False
+                if not orc.live:
+                    continue
+                a = rng.choice(sorted(orc.live))
+                if not do("realloc %d %d %d %d" % (orc.live[a] + rng.choice([1, bsz, 10 * bsz]), a, orc.live[a],
+                                                   F_NOOVER | F_NOSTATS | rng.choice([0, F_NOEXT]))):
+                    return False
+                continue
             elif kind == "small":
                 if not small():
                     return False
